@@ -691,4 +691,46 @@ V("c14-soap-decoder-wrong-tag", "C14", "soap.py",
 OK("c14-benign-escape-import-alias", "C14", "pack.py",
    "                val=html.escape(relay_state),", "                val=html.escape(relay_state, quote=True),")
 
+# ------------------------------------------------------------------ C15
+V("c15-shared-signer-again", "C15", "sigver.py",
+  "            if sigkey:\n                signer = RSASigner(signer.digest, sigkey)\n            else:\n                signer = RSASigner(signer.digest, self.key)",
+  "            if sigkey:\n                signer.key = sigkey\n            else:\n                signer.key = self.key",
+  rule="R1")
+V("c15-shared-signer-via-get", "C15", "sigver.py",
+  "    def get_signer(self, sigalg, sigkey=None):",
+  "    def rekey(self, sigalg):\n        obj = SIGNER_ALGS.get(sigalg)\n        if obj is not None:\n            obj.key = self.key\n        return obj\n\n    def get_signer(self, sigalg, sigkey=None):",
+  rule="R1")
+V("c15-signer-key-none", "C15", "sigver.py",
+  "                signer = RSASigner(signer.digest, self.key)", "                signer = RSASigner(signer.digest, None)",
+  rule="R2")
+V("c15-foreign-key-in-apply-binding", "C15", "entity.py",
+  "                signer = self.sec.sec_backend.get_signer(sigalg)",
+  "                signer = self.sec.sec_backend.get_signer(sigalg, kwargs.get('sigkey'))", rule="R2")
+V("c15-verifier-order-differs", "C15", "sigver.py",
+  "                [urlencode({k: _args[k]}) for k in _order if k in\n                 _args]).encode('ascii')",
+  "                [urlencode({k: _args[k]}) for k in sorted(_args)]).encode('ascii')", rule="R3")
+V("c15-signer-skips-relaystate", "C15", "pack.py",
+  "        string = \"&\".join([urlencode({k: args[k]})\n                           for k in _order if k in args]).encode('ascii')",
+  "        string = \"&\".join([urlencode({k: args[k]})\n                           for k in _order if k in args and k != 'RelayState']).encode('ascii')",
+  rule="R3")
+V("c15-order-table-changed", "C15", "sigver.py",
+  "RESP_ORDER = [\n    'SAMLResponse',\n    'RelayState',\n    'SigAlg',\n]",
+  "RESP_ORDER = [\n    'SAMLResponse',\n    'SigAlg',\n]", rule="R3")
+V("c15-signature-not-removed", "C15", "sigver.py",
+  "            del _args['Signature']  # everything but the signature\n", "", rule="R3")
+V("c15-verdict-default-true", "C15", "sigver.py",
+  "            return bool(signer.verify(string, _sign, _key))",
+  "            return bool(signer.verify(string, _sign, _key)) or not _key", rule="R4")
+V("c15-unknown-alg-true", "C15", "sigver.py",
+  "            return bool(signer.verify(string, _sign, _key))\n",
+  "            return bool(signer.verify(string, _sign, _key))\n        return True\n", rule="R4")
+V("c15-key-verify-swallow-true", "C15", "cryptography/asymmetric.py",
+  "    except Exception as e:\n        return False\n    else:\n        return True",
+  "    except Exception as e:\n        pass\n    return True", rule="R4")
+V("c15-assert-removed", "C15", "pack.py",
+  "        assert sigalg in [b for a, b in SIG_ALLOWED_ALG]\n", "", rule="R5")
+OK("c15-benign-signer-copy-rewrite", "C15", "sigver.py",
+   "            if sigkey:\n                signer = RSASigner(signer.digest, sigkey)\n            else:\n                signer = RSASigner(signer.digest, self.key)",
+   "            signer = RSASigner(signer.digest, sigkey if sigkey else self.key)")
+
 VARIANTS[:] = [v for v in VARIANTS if v]
